@@ -483,8 +483,6 @@ func TestPeerRejections(t *testing.T) {
 	expect("recipient keyid future", "recipient-keyid", build(DataSpec{RecipientKeyID: u32(b.OurKeyID + 1), Ctr: u64(99)}))
 	expect("sender keyid 0", "sender-keyid", build(DataSpec{SenderKeyID: u32(0), Ctr: u64(99)}))
 	expect("sender keyid future", "sender-keyid", build(DataSpec{SenderKeyID: u32(b.TheirKeyID + 1), Ctr: u64(99)}))
-	expect("next DH = 1", "nextdh-range", build(DataSpec{NextDH: big.NewInt(1), Ctr: u64(99)}))
-	expect("next DH = p-1", "nextdh-range", build(DataSpec{NextDH: new(big.Int).Sub(P, big.NewInt(1)), Ctr: u64(99)}))
 	expect("truncated TLV", "tlv", build(DataSpec{RawPlain: []byte("t\x00\x00\x01\x00\x09ab"), Ctr: u64(99)}))
 
 	m = build(DataSpec{Ctr: u64(99)})
